@@ -172,7 +172,11 @@ class HardOcdLossH(Harness):
         kw = dict(eos=c["eos"], include_eos=c["include_eos"], batch_first=c["batch_first"], ins_cost=c["costs"][0], del_cost=c["costs"][1],
                   sub_cost=c["costs"][2], weight=weight, reduction=c["reduction"], ignore_index=self.IGN, warn=False)
         if c.get("as_module"):
-            return M.HardOptimalCompletionDistillationLoss(**kw)(logits, ref, hyp)
+            import inspect
+            ok = set(inspect.signature(M.HardOptimalCompletionDistillationLoss.__init__).parameters)
+            with __import__("warnings").catch_warnings():
+                __import__("warnings").simplefilter("ignore")
+                return M.HardOptimalCompletionDistillationLoss(**{k: v for k, v in kw.items() if k in ok})(logits, ref, hyp)
         return F.hard_optimal_completion_distillation_loss(logits, ref, hyp, **kw)
 
     def _oc(self, ref, hyp):
